@@ -1,7 +1,7 @@
 (* Case formats of the correspondence check and the model-side checker.
    Every stream of the Go harness produces cases of this type; check_case returns the list of
    disagreements (empty = the implementation behaved like the model on this case). *)
-From Clover Require Export Ops RunC10.
+From Clover Require Export Ops RunC10 Unmarshal.
 Open Scope Z_scope.
 
 Inductive hcase : Type :=
@@ -19,7 +19,10 @@ Inductive hcase : Type :=
        consumer that stops after [stop] ids (stop < 0: never); observed: the ids visited, in order *)
 | HCursor (keys : list bytes) (forward : bool) (target : bytes) (obs : T)
     (* store-level cursor contract: keys written (with empty values), Seek(target), then iterate *)
-| HDocSet (d : obj) (name : bytes) (g : goval) (probe : bytes) (obs : T). (* Set then Get/Has of probe *)
+| HDocSet (d : obj) (name : bytes) (g : goval) (probe : bytes) (obs : T) (* Set then Get/Has of probe *)
+| HUnm (t : gotype) (d : obj) (obs : T).
+    (* Document.Unmarshal of document d into a zeroed target of Go type t; observed: [3] on error, otherwise
+       Normalize of what the target holds. Compared only where the model determines the outcome. *)
 
 (* one history: stop at the first disagreement; report (index, model result, model dump if compared) *)
 Fixpoint check_hist (i : Z) (db : dbst) (steps : list (op * T * option T)) : list T :=
@@ -85,6 +88,12 @@ Definition check_case (c : hcase) : list T :=
   | HDocSet d name g probe obs =>
       let d' := doc_set_go name g d in
       expect (TL [T_of_doc d'; Tbool (doc_has probe d'); T_of_value (doc_get probe d')]) obs
+  | HUnm t d obs =>
+      match unmarshal t d with
+      | UOk g => expect (T_of_nres (normalize g)) obs
+      | UErr => expect (TL [TZ 3]) obs
+      | UUndet => []
+      end
   end.
 
 (* used by the in-Coq (vm_compute) sample check: indices of the cases that disagree *)
